@@ -10,3 +10,73 @@ package emulated
 //@   requires mc != nil && mc.a != nil && mc.b != nil && mc.r != nil && mc.k != nil && mc.c != nil
 //@   nopanic
 //@   ensures @all-caches-cleared !mc.a.isEvaluated && !mc.b.isEvaluated && !mc.r.isEvaluated && !mc.k.isEvaluated && !mc.c.isEvaluated && (mc.p != nil ==> !mc.p.isEvaluated)
+
+// ---- C12: every value a hint supplies to a multiplication check must be bounded, otherwise the polynomial
+// identity a(X)b(X) = r(X) + k(X)p(X) + (2^w - X)c(X), which is checked over the NATIVE field, does not lift
+// to the integers. bpl / nbl / emod: the parameters of the emulated field (pure functions of the type).
+//@ spec func bpl(p FieldParams) int
+//@ spec func nbl(p FieldParams) int
+//@ spec func emod(p FieldParams) int
+//@ contract iface FieldParams.BitsPerLimb
+//@   pure
+//@   ensures result == bpl(recv) && result >= 1 && result < fieldBits() - 1
+//@ contract iface FieldParams.NbLimbs
+//@   pure
+//@   ensures result == nbl(recv) && result >= 1
+//@ contract iface FieldParams.Modulus
+//@   pure
+//@   ensures result != nil && allocated(result) && *result == emod(recv) && *result > 1
+// |x| < 2^n for the signed reading of a native field element
+//@ spec func fitsAbs(x F, n int) bool = fits(ival(x), n) || fits(ival(fneg(x)), n)
+
+//@ contract (*Field).enforceWidth
+//@   props C12
+//@   assigns *f.checker
+//@   requires f != nil && a != nil && f.checker != nil
+//@   ensures @limbs-ranged forall k int :: 0 <= k && k < len(a.Limbs) ==> fits(ival(den(a.Limbs[k])), bpl(f.fParams))
+//@   loop 1 invariant @ranged forall k int :: 0 <= k && k <= rangeindex ==> fits(ival(den(a.Limbs[k])), bpl(f.fParams))
+
+//@ contract (*Field).packLimbs
+//@   props C12
+//@   assigns *f.checker
+//@   requires f != nil && f.checker != nil
+//@   ensures @packed result != nil && fresh(result) && allocated(result) && result.Limbs == limbs
+//@   ensures @limbs-ranged forall k int :: 0 <= k && k < len(limbs) ==> fits(ival(den(limbs[k])), bpl(f.fParams))
+
+// the hint of a multiplication check returns quotient, remainder and carries: all three must be bounded
+//@ contract (*Field).callMulHint
+//@   props C12
+//@   requires f != nil && f.checker != nil && f.api != nil && a != nil && b != nil
+//@   ensures @quo-ranged result.3 == nil ==> forall k int :: 0 <= k && k < len(quo.Limbs) ==> fits(ival(den(quo.Limbs[k])), bpl(f.fParams))
+//@   ensures @rem-ranged result.3 == nil && isMulMod ==> forall k int :: 0 <= k && k < len(rem.Limbs) ==> fits(ival(den(rem.Limbs[k])), bpl(f.fParams))
+//@   ensures @carries-bounded result.3 == nil ==> forall k int :: 0 <= k && k < len(carries.Limbs) ==> fitsAbs(den(carries.Limbs[k]), fieldBits() - 2)
+
+// frames of the helpers callMulHint goes through (what they may write), so that f's fields survive the calls
+//@ contract (*Field).mulPreCond
+//@   props C12
+//@   assigns f.maxOf, f.maxOfOnce
+//@ contract (*Field).maxOverflow
+//@   props C12
+//@   assigns f.maxOf, f.maxOfOnce
+//@ contract (*Field).Modulus
+//@   trusted "sync.Once around newConstElement(p): the constant element whose value is the emulated modulus"
+//@   assigns f.nConst, f.nConstOnce
+//@   ensures result != nil && allocated(result) && evalL(result.Limbs) == emod(f.fParams)
+//@ contract (*Field).modulusPrev
+//@   trusted "sync.Once around newConstElement(p-1)"
+//@   assigns f.nprevConst, f.nprevConstOnce
+//@   ensures result != nil && allocated(result) && evalL(result.Limbs) == emod(f.fParams) - 1
+
+// ---- canonical representatives. evalL(e.Limbs): the integer an element denotes (sum of limb values * 2^(w*i)).
+//@ spec func evalL(limbs []Variable) int
+// bitwise comparison of two elements without overflow: assumed here (the running-product constraints of
+// AssertIsLessOrEqual are not yet under contract)
+//@ contract (*Field).AssertIsLessOrEqual
+//@   trusted "not yet verified: bitwise running-product comparison"
+//@   assigns *f.checker
+//@   ensures evalL(e.Limbs) <= evalL(a.Limbs)
+// AssertIsInRange forces a below the modulus (and only then marks it reduced)
+//@ contract (*Field).AssertIsInRange
+//@   props C12
+//@   requires f != nil && a != nil
+//@   ensures @below-modulus !old(a.modReduced) ==> evalL(a.Limbs) <= emod(f.fParams) - 1
